@@ -99,6 +99,13 @@ def gen(seed: int, tier: str) -> dict[str, Any]:
             if ck == "after":
                 b["con_d"] = rng.choice([0.0, 0.0005, 0.003, 1.0, 2.9, 2.999999, 3.0, 3.000001, 3.5])
         sends[str(i + 1)] = b
+    if rng.random() < 0.35:
+        # a management point-to-point connection to the peer that also sends the frames is open for part of the run:
+        # frames of that peer addressed to *another* interface must still not reach management
+        tc = round(rng.choice([0.0, rng.uniform(0, horizon)]), 6)
+        ops.append({"t": tc, "op": "mgmt_connect"})
+        if rng.random() < 0.4:
+            ops.append({"t": round(tc + rng.uniform(0.05, horizon), 6), "op": "mgmt_disconnect"})
     ops.sort(key=lambda o: o["t"])
     return {"seed": seed, "tier": "S", "config": {"batch": 1}, "ops": ops, "sends": sends}
 
@@ -161,10 +168,31 @@ def run(plan: dict[str, Any]) -> dict[str, Any]:
         xknx.task_registry.start()
         t0 = loop.time()
         tasks = []
+        aux: list[Any] = []
+
+        conn: list[Any] = []
+
+        async def mgmt_connect():
+            try:
+                conn.append(await xknx.management.connect(IndividualAddress(PEER)))
+                R.probes["management_connection_open"] += 1
+            except Exception as exc:  # pylint: disable=broad-except
+                R.probes["mgmt_connect_failed:" + type(exc).__name__] += 1
+
+        async def mgmt_disconnect():
+            try:
+                if conn:
+                    await xknx.management.disconnect(IndividualAddress(PEER))
+            except Exception as exc:  # pylint: disable=broad-except
+                R.probes["mgmt_disconnect_failed:" + type(exc).__name__] += 1
 
         def do(op):
             if op["op"] == "frame":
                 stub.deliver(build_frame(op), f"{op['code']:02x}/{op['tpci']}/{op['dst']}")
+            elif op["op"] == "mgmt_connect":
+                aux.append(loop.create_task(mgmt_connect()))
+            elif op["op"] == "mgmt_disconnect":
+                aux.append(loop.create_task(mgmt_disconnect()))
             else:
                 tasks.append(loop.create_task(do_send(op["id"])))
 
@@ -179,6 +207,9 @@ def run(plan: dict[str, Any]) -> dict[str, Any]:
                 R.violate("C14.confirmation", "send-hangs", "send_telegram did not return within 8 s after the last operation")
                 t.cancel()
         await asyncio.gather(*tasks, return_exceptions=True)
+        for t in aux:
+            t.cancel()
+        await asyncio.gather(*aux, return_exceptions=True)
         xknx.task_registry.stop()
         await asyncio.sleep(0.01)
 
